@@ -1,6 +1,7 @@
 package main
 
 import (
+	"bytes"
 	"encoding/json"
 	"fmt"
 	"io"
@@ -270,10 +271,22 @@ func runPlot(t *simrt.Tape, keep bool) simrt.Outcome {
 			}
 			res = vegeta.Result{}
 			p.Close()
+			// a closed plot may be written more than once (to a file and to a browser, say): every rendering shows
+			// the same points. The file that is checked below is the last one written.
+			var first bytes.Buffer
+			renderings := 1 + t.Choose(2)
+			if renderings > 1 {
+				if _, err = p.WriteTo(&first); err != nil {
+					return
+				}
+			}
 			var f *os.File
 			if f, err = os.Create(out); err == nil {
 				_, err = p.WriteTo(f)
 				f.Close()
+			}
+			if b, e := os.ReadFile(out); renderings > 1 && err == nil && e == nil && !bytes.Equal(b, first.Bytes()) {
+				r.fail("C17.rendering-changed", nil, "the same closed plot written twice: the second rendering (%d bytes) differs from the first (%d bytes)", len(b), first.Len())
 			}
 		})
 	} else {
